@@ -572,6 +572,28 @@ func compiledProgramReadOnly(r *an.Run, rule string) {
 				if isCompiledCell(x.Type(), isCompiled) && passesReference(addr, x) {
 					bad, what = true, "receiver copy "+x.Comment+" through a reference field (map / slice / pointer shared with the compiled program)"
 				}
+				// a local copy of a package-level variable: the copy shares every slice, map and pointer it holds
+				if !bad && passesReference(addr, x) && x.Referrers() != nil {
+					for _, ref := range *x.Referrers() {
+						st, ok := ref.(*ssa.Store)
+						if !ok || st.Addr != ssa.Value(x) {
+							continue
+						}
+						for _, leaf := range phiLeaves(st.Val) {
+							lr := an.Root(leaf)
+							for {
+								if u, ok := lr.(*ssa.UnOp); ok {
+									lr = an.Root(u.X)
+									continue
+								}
+								break
+							}
+							if g, ok := lr.(*ssa.Global); ok {
+								bad, what = true, "a local copy of package-level variable "+g.Name()+", through a slice / map / pointer the copy shares with it"
+							}
+						}
+					}
+				}
 			}
 			if !bad {
 				continue
